@@ -61,6 +61,27 @@ func clientLibraryGoroutines() (int, []string) {
 	return n, sigs
 }
 
+// grpcClientGoroutines counts the goroutines of gRPC client connections (transport readers, address
+// connections, balancer / resolver wrappers): what a *grpc.ClientConn that nobody closed leaves behind.
+func grpcClientGoroutines() (int, []string) {
+	n := 0
+	seen := map[string]bool{}
+	var sigs []string
+	for _, b := range strings.Split(goroutineDump(), "\n\n") {
+		for _, mark := range []string{"transport.(*http2Client)", "grpc.(*addrConn)", "grpc.(*ccBalancerWrapper)", "grpc.(*ccResolverWrapper)", "transport.newHTTP2Client", "grpcsync.(*CallbackSerializer).run"} {
+			if strings.Contains(b, mark) {
+				n++
+				if !seen[mark] {
+					seen[mark] = true
+					sigs = append(sigs, mark)
+				}
+				break
+			}
+		}
+	}
+	return n, sigs
+}
+
 func closeScenario(r *rand.Rand, sum *sumT) {
 	buf := []uint{0, 1, 8}[r.Intn(3)]
 	state := []string{"connected", "one-unreachable", "one-blocked"}[r.Intn(3)]
@@ -97,6 +118,7 @@ func closeScenario(r *rand.Rand, sum *sumT) {
 		return 0, len(replies), len(replies) >= 3, true
 	}
 	base, _ := clientLibraryGoroutines()
+	baseConn, _ := grpcClientGoroutines()
 	mgr := dev.NewManager(gorums.WithDialTimeout(500*time.Millisecond), gorums.WithBackoff(fastBackoff()), gorums.WithSendBufferSize(buf),
 		gorums.WithGrpcDialOptions(grpc.WithTransportCredentials(insecure.NewCredentials())))
 	m := map[string]uint32{}
@@ -275,6 +297,14 @@ func closeScenario(r *rand.Rand, sum *sumT) {
 		var sigs []string
 		if !waitFor(3*time.Second, func() bool { now, sigs = clientLibraryGoroutines(); return now <= base }) {
 			sum.mismatch(Mismatch{Property: "C12", Case: caseS, Expected: fmt.Sprintf("client-side library goroutines back to %d within 3 s of Close", base), Observed: fmt.Sprint(now), Detail: strings.Join(sigs, "; ")})
+		}
+	}
+	// the connections the manager created are closed (their gRPC goroutines are gone)
+	if stranded == 0 && postStranded == 0 {
+		var now int
+		var sigs []string
+		if !waitFor(3*time.Second, func() bool { now, sigs = grpcClientGoroutines(); return now <= baseConn }) {
+			sum.mismatch(Mismatch{Property: "C12", Case: caseS, Expected: fmt.Sprintf("goroutines of gRPC client connections back to %d within 3 s of Close (every connection the manager created is closed)", baseConn), Observed: fmt.Sprint(now), Detail: strings.Join(sigs, "; ")})
 		}
 	}
 	sum.count("sendbuf:" + fmt.Sprint(buf))
